@@ -1,6 +1,7 @@
 /- Line-protocol handlers of the raw reader models (C07, parser part):
 
    rdr <format> <a|u> <hex>      → ok <shapes> ctor=<ok|Class> @<lineno> | err <Class> @<lineno>
+                                   (poscar, chgcar, locpot: an `ok` line ends with ` zsum=<sum of atnums>`)
                                    (`a`: two hex digits per character, `u`: four hex digits per code point)
    pynum int|float|title|isdigit|split <a|u> <hex>
    rctor <atcoords> <atnums> <atcorenums> <atcharges> <bonds> <cellvecs>   → ok | TypeError
@@ -41,7 +42,18 @@ def readFmt (fmt : String) (ls : List Str) : Option (Out RObj) :=
   | "cube" => some (Cube.read ls)
   | "gromacs" => some (Gro.read ls)
   | "sdf" => some (Sdf.read T Iodata.Gen.Layouts.sdfL ls)
+  | "poscar" => some (Vasp.readPoscar T ls)
+  | "chgcar" => some (Vasp.readChgcar T ls)
+  | "locpot" => some (Vasp.readLocpot T ls)
   | _ => none
+
+/-- value fingerprint appended to the response of the VASP formats: `atnums.sum()` of a returned result -/
+def valueTag (fmt : String) (r : Out RObj) (ls : List Str) : String :=
+  if fmt == "poscar" || fmt == "chgcar" || fmt == "locpot" then
+    match r.res, Vasp.zsum T ls with
+    | .ok _, some z => s!" zsum={z}"
+    | _, _ => ""
+  else ""
 
 def decShape (s : String) : Option (List Nat) :=
   if s == "-" then none else if s == "s" then some [] else some ((s.splitOn "x").map String.toNat!)
@@ -51,7 +63,7 @@ def decLens (s : String) : List Nat := if s == "-" then [] else (s.splitOn ",").
 def handle : List String → Option String
   | ["rdr", fmt, enc, h] =>
     match readFmt fmt (splitLines (decText enc h)) with
-    | some r => some r.show
+    | some r => some (r.show ++ valueTag fmt r (splitLines (decText enc h)))
     | none => some "unknown-format"
   | ["pynum", "int", enc, h] =>
     some (match pyInt (decText enc h) with | some i => s!"ok {i}" | none => "err")
